@@ -235,7 +235,7 @@ CHECKS = {
         "level_note": "Detection is probabilistic (schedules are perturbed, not enumerated); a reported violation is real. Site names carry statement indices; a stale name fails loudly (requireSites).",
         "assumptions": ["close-after-idle 600 s: nothing but the harness closes instances", "Destroy() is never issued on a handle already Close()d"],
     },
-    "C16_PENDING": {
+    "C16": {
         "pkg": "life", "run": "^TestC16", "level": "exploration", "overlay": "vsched", "tags": ["verifvsched"],
         "shards": {"quick": 16, "thorough": 16}, "timeout": {"quick": 1500, "thorough": 3000},
         "technique": "property-based testing of concurrent writer/lifecycle programs through the gateway handlers (injected and real idle closes, auto-destroy, Destroy, modelled graceful stop and restart) with schedule perturbation; acknowledged-write history oracle after re-open",
